@@ -1,8 +1,8 @@
 #!/bin/bash
 # usage: tools_cross.sh <seed id>   run ALL 20 checks (quick) against one seeded change; prints one matrix line
 # "<seed> C01=0 C02=0 ... " (0 = silent, 1 = VIOLATION with replay, n = no-failing-input-found) to /tmp/cross/<seed>.txt
-s=$1
-d=/verif/seeded/$s
+s=$(basename $1)
+d=/verif/seeded/$s; [ -d "$1" ] && d=$(readlink -f $1)
 wt=/tmp/cross-wt-$s; wr=/tmp/cross-wr-$s
 mkdir -p /tmp/cross
 git -C /repo worktree add --detach $wt >/dev/null 2>&1 || exit 2
